@@ -48,7 +48,9 @@ REQUIRED_COUNTERS = ['rows_compared', 'bsf_roundtrips', 'css_objects',
                      'history_steps_checked', 'unsorted_csr_rows',
                      'csr_rows_with_stored_zeros',
                      'user_defined_codes', 'hash_seed_children',
-                     'y_operators_roundtripped']
+                     'y_operators_roundtripped',
+                     'from_bsf_other_sparse_containers',
+                     'user_defined_codes_with_checks_of_weight_256_or_more']
 
 LETTER_BITS = {'X': (1, 0), 'Y': (1, 1), 'Z': (0, 1)}
 
@@ -152,9 +154,21 @@ def check_object(code, desc, out, mech, rng, deep=True):
                 {'op': {str(k): p for k, p in list(op.items())[:8]}})
             continue
         from scipy.sparse import csr_matrix
+        import scipy.sparse as _sp
+        row8 = v.astype('uint8').reshape(1, -1)
         for shape_nm, arg in (('1d', v), ('row', v.reshape(1, -1)),
                               ('csr', csr_matrix(v.reshape(1, -1))),
-                              ('1d-int64', v.astype(np.int64))):
+                              ('1d-int64', v.astype(np.int64)),
+                              ('1d-bool', v.astype(bool)),
+                              ('csc', _sp.csc_matrix(row8)),
+                              ('coo', _sp.coo_matrix(row8)),
+                              ('lil', _sp.lil_matrix(row8)),
+                              ('dok', _sp.dok_matrix(row8)),
+                              ('csr_array', _sp.csr_array(row8)),
+                              ('coo_array', _sp.coo_array(row8))):
+            if shape_nm in ('csc', 'coo', 'lil', 'dok', 'csr_array',
+                            'coo_array'):
+                out.count('from_bsf_other_sparse_containers')
             back = code.from_bsf(arg)
             out.count('bsf_roundtrips')
             if back != op:
@@ -298,7 +312,29 @@ def make_user_class(spec):
     return UserCode
 
 
+def gen_wide_spec(rng):
+    """A CSS code on hundreds of qubits with a few very heavy checks
+    (weights at and around multiples of 256) -- the [[n, n-2, 2]]
+    error-detecting family and relatives."""
+    n = int(rng.choice([255, 256, 257, 300, 512, 513, 600]))
+    qubits = [(i, 0) for i in range(n)]
+    stabs = []
+    heavy = [w for w in (n, 256, 512, 255, 100) if w <= n]
+    for j, w in enumerate(heavy[:int(rng.integers(2, 5))]):
+        letter = 'XZ'[j % 2]
+        start = int(rng.integers(0, n - w + 1))
+        stabs.append(((j, 1), [(qubits[i], letter)
+                               for i in range(start, start + w)]))
+    order = rng.permutation(len(stabs))
+    stabs = [stabs[int(i)] for i in order]
+    return {'dim': 2, 'qubits': qubits, 'stabs': stabs,
+            'lx': [[(qubits[0], 'X'), (qubits[1], 'X')]],
+            'lz': [[(qubits[0], 'Z'), (qubits[n - 1], 'Z')]], 'css': True}
+
+
 def gen_user_spec(rng):
+    if rng.random() < 0.08:
+        return gen_wide_spec(rng)
     dim = int(rng.choice([2, 3]))
     ncomp = int(rng.choice([2, 3, 4]))
     n = int(rng.integers(1, 14))
@@ -354,6 +390,8 @@ def run_user(task, out):
                                tb=traceback.format_exc()[-800:]))
             continue
         out.count('user_defined_codes')
+        if desc['n'] >= 255:
+            out.count('user_defined_codes_with_checks_of_weight_256_or_more')
         out.case(desc, nontrivial=bool(ne), sample=desc if j < 2 else None)
 
 
